@@ -15,6 +15,12 @@ if r.returncode != 0:
     if r.returncode != 0:
         print("APPLY-FAILED", r.stderr[-500:])
         sys.exit(2)
+VERIF = os.path.dirname(os.path.dirname(os.path.abspath(__file__)))
+saved = {}
+for c in checks:  # the evidence files describe the unchanged tree: a seed trial must not leave its own behind
+    f = os.path.join(VERIF, "evidence", c + ".json")
+    if os.path.exists(f):
+        saved[f] = open(f, "rb").read()
 try:
     for c in checks:
         p = subprocess.run([sys.executable, os.path.join(os.path.dirname(os.path.abspath(__file__)), "run_check.py"), c, "quick"],
@@ -24,5 +30,7 @@ try:
         print("%s exit=%d violations=%d %s %s" % (c, p.returncode, len(v), "no-failing-input-found" if any("no-failing-input-found" in l for l in v) else "",
                                                  first[0][:300] if first else ""))
 finally:
+    for f, b in saved.items():
+        open(f, "wb").write(b)
     subprocess.run(["git", "-C", REPO, "checkout", "--", "."], check=True)
     subprocess.run(["git", "-C", REPO, "reset", "-q"], check=False)
